@@ -110,9 +110,18 @@ def build(unit, repo=None, out_dir=None, canary=False):
         c = dict(e)
         if e.get("implheader") and " for " in e["implheader"]:
             c["in_trait_impl"] = True
-        if canary:
-            c = dict(e)
-            c["ensures"] = list(e["ensures"]) + [("__canary", "false")]
+        canary_on = False
+        canary_copy = None
+        if canary and e["ensures"] and not c.get("in_trait_impl") and not e.get("stub"):
+            # vacuity guard: a renamed copy of the function under the same requires / invariants must NOT be able to prove
+            # `false`; the original keeps its contract and is not re-verified in this run (external_body)
+            cc = dict(c)
+            cc["ensures"] = [("__canary", "false")]
+            ctext, _ = X.rewrite_fn(text, cc, [])
+            ctext = re.sub(r"\bfn\s+" + re.escape(e["name"]) + r"\b", "fn " + e["name"] + "__canary", ctext, count=1)
+            canary_copy = ctext
+            c["stub"] = "original of a canary copy (not re-verified in the canary run)"
+            canary_on = True
         new, markers = X.rewrite_fn(text, c, rep)
         for pref in unit_cfg.get("path_strip", []):
             if pref in new:
@@ -121,9 +130,15 @@ def build(unit, repo=None, out_dir=None, canary=False):
         wrap_open, wrap_close = "", ""
         if e.get("within"):
             wrap_open = e.get("impl_header", "")
+        if canary_copy is not None:
+            for pref in unit_cfg.get("path_strip", []):
+                canary_copy = canary_copy.replace(pref, "")
+            functions.append({"name": e["name"] + "__canary", "src": e["src"], "bytes": [s, en], "sha256": X.sha(text), "rewrites": [], "props": [], "ensures": ["__canary"],
+                              "ensures_props": {}, "loops": [], "text": canary_copy, "within": e.get("within"), "canary_mode": "", "canary_on": True, "stub": None, "implheader": e.get("implheader")})
+            canary_on = False
         functions.append({"name": e["name"], "src": e["src"], "bytes": [s, en], "sha256": X.sha(text), "rewrites": rep,
                           "props": e["props"], "ensures": [n for n, _ in c["ensures"]], "ensures_props": e["ensures_props"],
-                          "loops": sorted(e["loops"].keys()), "text": new, "within": e.get("within"), "canary_mode": e.get("canary", ""), "stub": e.get("stub"), "implheader": e.get("implheader")})
+                          "loops": sorted(e["loops"].keys()), "text": new, "within": e.get("within"), "canary_mode": e.get("canary", ""), "canary_on": canary_on, "stub": e.get("stub"), "implheader": e.get("implheader")})
     meta = {"unit": unit, "items": items, "functions": functions, "preamble": pre, "canary": canary}
     return meta
 
@@ -183,8 +198,8 @@ def emit(meta, gen_path, wrap_impls=None):
     return meta
 
 
-def run_verus(gen_path, extra=None, timeout=1800, rlimit=None):
-    cmd = ["verus", gen_path, "--output-json", "--time", "--error-format=json", "--multiple-errors", "20", "--triggers-mode", "silent"]
+def run_verus(gen_path, extra=None, timeout=1800, rlimit=None, multiple_errors=20):
+    cmd = ["verus", gen_path, "--output-json", "--time", "--error-format=json", "--multiple-errors", str(multiple_errors), "--triggers-mode", "silent"]
     if rlimit:
         cmd += ["--rlimit", str(rlimit)]
     if extra:
